@@ -4,6 +4,7 @@ package libtime
 
 import (
 	"context"
+	"fmt"
 	"time"
 
 	"github.com/luthersystems/elps/lisp"
@@ -151,6 +152,9 @@ func BuiltinParseRFC3339(env *lisp.LEnv, args *lisp.LVal) *lisp.LVal {
 	if err != nil {
 		return env.Error(err)
 	}
+	if err := strictRFC3339(stamp.Str); err != nil {
+		return env.Error(err)
+	}
 	return Time(t)
 }
 
@@ -163,7 +167,38 @@ func BuiltinParseRFC3339Nano(env *lisp.LEnv, args *lisp.LVal) *lisp.LVal {
 	if err != nil {
 		return env.Error(err)
 	}
+	if err := strictRFC3339(stamp.Str); err != nil {
+		return env.Error(err)
+	}
 	return Time(t)
+}
+
+// strictRFC3339 rejects the timestamps time.Parse accepts for the RFC 3339
+// layouts although RFC 3339 does not allow them: a one-digit hour, a comma as
+// the sub-second separator, and a numeric offset whose hour or minute is out
+// of range.  These are the same checks encoding/json and time.UnmarshalText
+// apply (see parseStrictRFC3339 in the standard library).  s has already been
+// accepted by time.Parse.
+func strictRFC3339(s string) error {
+	num2 := func(b string) int { return 10*int(b[0]-'0') + int(b[1]-'0') }
+	const (
+		hourEnd = len("2006-01-02T15")
+		secEnd  = len("2006-01-02T15:04:05")
+	)
+	switch {
+	case len(s) < secEnd || s[hourEnd] != ':':
+		return fmt.Errorf("parsing time %q: hour must be two digits", s)
+	case len(s) > secEnd && s[secEnd] == ',':
+		return fmt.Errorf("parsing time %q: sub-second separator must be a period", s)
+	case s[len(s)-1] != 'Z':
+		switch {
+		case num2(s[len(s)-len("07:00"):]) >= 24:
+			return fmt.Errorf("parsing time %q: timezone hour out of range", s)
+		case num2(s[len(s)-len("00"):]) >= 60:
+			return fmt.Errorf("parsing time %q: timezone minute out of range", s)
+		}
+	}
+	return nil
 }
 
 func BuiltinFormatRFC3339(env *lisp.LEnv, args *lisp.LVal) *lisp.LVal {
